@@ -56,3 +56,18 @@ Example C14_hypotheses_satisfiable :
   valid_model (Beta (3/2) true) /\ valid_model (Dirac (1/2) 1 true) /\ (2 <= 3 <= 5)%nat.
 Proof. simpl; repeat split; try lra; auto with arith. Qed.
 Print Assumptions C14_hypotheses_satisfiable.
+
+(* The block-counting rates of all outcomes with the same reduction sum to the lineage-counting
+   rate: every block vector (a_1..a_n) with sum_i i*a_i <= n, every merger size k >= 2, all three
+   models - unbounded, stronger than the "up to 7 lineages" of the property. *)
+From PG Require Import proofs.BlockSumProofs.
+Theorem C14_block_outcomes_sum :
+  forall (m : cmodel (T:=R)) (blocks : list nat) (k : nat),
+    wf_blocks blocks -> (2 <= length blocks)%nat -> (2 <= k)%nat ->
+    outcome_rate_sum m blocks k = get_rate_bk OpsR m (sum_nat blocks) k.
+Proof. exact block_outcomes_sum. Qed.
+Print Assumptions C14_block_outcomes_sum.
+
+Example C14_wf_blocks_satisfiable : wf_blocks [2; 1; 1; 0; 0; 0; 0]%nat.
+Proof. unfold wf_blocks; simpl. auto with arith. Qed.
+Print Assumptions C14_wf_blocks_satisfiable.
